@@ -2,15 +2,16 @@
    `check`  : the model reproduces the implementation.  For the AES names the block cipher argument of the
               model is instantiated with AES itself (Model/Aes.v), so ciphertext BYTES are compared: the mode
               models (chaining, counters, paddings) are tied to the code, not only lengths.  For the AEAD / SIV
-              names only outcome classes and lengths are modelled.  For the IP functions `aes128` mode is
-              exact (ipcrypt-deterministic is one AES-128 block); the `pfx` permutation is instantiated with
-              the observed result (the glue around it is what is compared).
+              names only outcome classes and lengths are modelled.  The IP functions are exact in both modes:
+              `aes128` (ipcrypt-deterministic) is one AES-128 block, `pfx` is the ipcrypt-pfx bit loop of
+              Model/IpPfx.v over AES-128 with the two key halves.
    `oracle` : the property itself on the implementation's outputs alone: decrypt(encrypt(p)) = p for an
               accepted name with a key / IV of the required sizes; decrypt_ip(encrypt_ip(a)) is the same
               address. *)
 From Coq Require Import String.
 From Coq Require Import List NArith ZArith Bool Arith.
-From VRL Require Import Base.Bytes Base.Lit Model.ConvRes Model.Padding Model.Modes Model.Aes Model.Ip Model.CipherGlue.
+From VRL Require Import Base.Bytes Base.Lit Model.ConvRes Model.Padding Model.Modes Model.Aes Model.Ip Model.CipherGlue
+     Model.IpPfx.
 Import ListNotations.
 
 (* what the implementation did in one step; error tags: 1 alg, 2 key, 3 iv, 4 input, 5 parse, 6 mode,
@@ -90,15 +91,11 @@ Definition check_dec (name c k iv : bytes) (dec : ires) : bool :=
     end
   else cres_eqb m dec.
 
-(* the 16 bytes behind an address text the implementation printed *)
-Definition obs_bytes (i : ires) : bytes :=
-  match i with
-  | IOk t => match parse_ip t with Some a => ip_to_bytes a | None => [] end
-  | _ => []
-  end.
+(* kept for the shape of the case terms: the observed result is no longer needed *)
+Definition obs_bytes (i : ires) : bytes := [].
 
 Definition ip_prims (obs : bytes) : ipprims :=
-  mkIpPrims aes_enc aes_dec (fun _ _ _ => obs) (fun _ _ _ => obs).
+  mkIpPrims aes_enc aes_dec (pfx_encrypt_bytes aes_enc) (pfx_decrypt_bytes aes_enc).
 
 Definition eff_ip (pre : bool) (ip : bytes) (pre_r : ires) : option bytes :=
   if pre then match pre_r with IOk b => Some b | _ => None end else Some ip.
